@@ -429,4 +429,218 @@ Proof.
   rewrite energy_diff_W, E by assumption. unfold mk_rows. cbn [map].
   rewrite <- gauss_rows. cbn [map]. rewrite qsum_nil. ring.
 Qed.
+
+(* ================================================================ V2, V1: shared pieces *)
+Lemma prior_Vk (V phi : list (list Qc)) (eta : list Qc) m x :
+  (m < c_ndd g)%nat -> (m < length V)%nat ->
+  e_Vk ln g (set_nth m x V) phi eta - e_Vk ln g (set_nth m [] V) phi eta
+  = sumn D (fun k => vnth (rnth phi m) k * vnth eta k * qsq (vnth x k)).
+Proof.
+  intros Hm Hlt. unfold e_Vk.
+  assert (H : forall z, sumn (c_ndd g) (fun m0 => sumn D (fun k => vnth (rnth phi m0) k * vnth eta k * qsq (vnth (rnth (set_nth m z V) m0) k)))
+                        = sumn (c_ndd g) (fun m0 => sumn D (fun k => vnth (rnth phi m0) k * vnth eta k * qsq (vnth (rnth V m0) k)))
+                          - sumn D (fun k => vnth (rnth phi m) k * vnth eta k * qsq (vnth (rnth V m) k))
+                          + sumn D (fun k => vnth (rnth phi m) k * vnth eta k * qsq (vnth z k))).
+  { intros z. rewrite <- (sumn_update (c_ndd g) m (fun m0 => sumn D (fun k => vnth (rnth phi m0) k * vnth eta k * qsq (vnth (rnth V m0) k)))) by exact Hm.
+    apply sumn_ext; intros k _. rewrite rnth_set_nth, (Nat.eqb_sym m k).
+    apply Nat.ltb_lt in Hlt. rewrite Hlt, andb_true_r. destruct (Nat.eqb k m) eqn:E; [apply Nat.eqb_eq in E; subst|]; reflexivity. }
+  rewrite !H. rewrite (sumn_zero' D (fun k => _ * qsq (vnth [] k))) by (intros; rewrite vnth_nil; unfold qsq; ring).
+  ring.
+Qed.
+
+Lemma block_V_data getV setV lamf Xa Xb s m Q b k :
+  block_V g d getV setV lamf Xa Xb s m = (DMvn Q b, k) ->
+  let rows := mk_rows g d s (Xa s) (rnth (getV s) m) (positions (Z.of_nat m) (d_dd1 d))
+              ++ mk_rows g d s (Xb s) (rnth (getV s) m) (positions (Z.of_nat m) (d_dd2 d)) in
+  Q = gramQ D (prec s) rows (lamf s m) /\ b = xtr D (prec s) rows.
+Proof.
+  unfold block_V. destruct (positions (Z.of_nat m) (d_dd1 d) ++ positions (Z.of_nat m) (d_dd2 d)); [discriminate|].
+  intros H; inversion H; subst. split; reflexivity.
+Qed.
+
+Lemma block_V_prior getV setV lamf Xa Xb s m vars k :
+  block_V g d getV setV lamf Xa Xb s m = (DNormalVec vars, k) ->
+  vars = map Qcinv (lamf s m) /\ positions (Z.of_nat m) (d_dd1 d) = [] /\ positions (Z.of_nat m) (d_dd2 d) = [].
+Proof.
+  unfold block_V. destruct (positions (Z.of_nat m) (d_dd1 d) ++ positions (Z.of_nat m) (d_dd2 d)) eqn:E; [|discriminate].
+  intros H; inversion H; subst. apply app_eq_nil in E. tauto.
+Qed.
+
+(* ================================================================ V2 *)
+Definition upd_V2 (s : st) (m : nat) (x : list Qc) : st := set_V2 s (set_nth m x (V2 s)).
+
+Lemma xrow_V2a_nth s i k :
+  ValidData d -> (k < D)%nat ->
+  vnth (xrow_V2a g d s i) k = vnth (rnth (W s) (Z.to_nat (znth (d_cl d) i))) k * vnth (emb_r (V2 s) (znth (d_dd2 d) i)) k.
+Proof.
+  intros (_ & _ & _ & Hc & H1 & H2) Hk. unfold xrow_V2a, vmul. rewrite vnth_tab by exact Hk.
+  rewrite py_r_nat by apply Hc. rewrite get_r_emb by apply H2. reflexivity.
+Qed.
+Lemma xrow_V2b_nth s i k :
+  ValidData d -> (k < D)%nat ->
+  vnth (xrow_V2b g d s i) k = vnth (rnth (W s) (Z.to_nat (znth (d_cl d) i))) k * vnth (emb_r (V2 s) (znth (d_dd1 d) i)) k.
+Proof.
+  intros (_ & _ & _ & Hc & H1 & H2) Hk. unfold xrow_V2b, vmul. rewrite vnth_tab by exact Hk.
+  rewrite py_r_nat by apply Hc. rewrite get_r_emb by apply H1. reflexivity.
+Qed.
+
+Lemma mean_V2 s m x i :
+  ValidData d -> NoSelfCombo d -> (i < n)%nat -> (m < length (V2 s))%nat ->
+  spec_mean g d (upd_V2 s m x) i
+  = spec_mean g d (upd_V2 s m []) i + (if in1 m i then vdot D (xrow_V2a g d s i) x else 0)
+    + (if in2 m i then vdot D (xrow_V2b g d s i) x else 0).
+Proof.
+  intros Hv Hns Hi Hlt. unfold spec_mean, upd_V2. cbn [W0 W V0 V1 V2 alpha set_V2].
+  rewrite !emb_r_set by exact Hlt. fold (in1 m i) (in2 m i).
+  destruct (in1 m i) eqn:E1, (in2 m i) eqn:E2.
+  - exfalso. eapply in12_disjoint; eauto.
+  - assert (HS : sumn D (fun k => vnth (rnth (W s) (Z.to_nat (znth (d_cl d) i))) k * vnth x k * vnth (emb_r (V2 s) (znth (d_dd2 d) i)) k)
+               = sumn D (fun k => vnth (rnth (W s) (Z.to_nat (znth (d_cl d) i))) k * vnth [] k * vnth (emb_r (V2 s) (znth (d_dd2 d) i)) k)
+                 + vdot D (xrow_V2a g d s i) x).
+    { unfold vdot. rewrite <- sumn_add. apply sumn_ext; intros k Hk. rewrite vnth_nil, xrow_V2a_nth by assumption. ring. }
+    rewrite HS. ring.
+  - assert (HS : sumn D (fun k => vnth (rnth (W s) (Z.to_nat (znth (d_cl d) i))) k * vnth (emb_r (V2 s) (znth (d_dd1 d) i)) k * vnth x k)
+               = sumn D (fun k => vnth (rnth (W s) (Z.to_nat (znth (d_cl d) i))) k * vnth (emb_r (V2 s) (znth (d_dd1 d) i)) k * vnth [] k)
+                 + vdot D (xrow_V2b g d s i) x).
+    { unfold vdot. rewrite <- sumn_add. apply sumn_ext; intros k Hk. rewrite vnth_nil, xrow_V2b_nth by assumption. ring. }
+    rewrite HS. ring.
+  - ring.
+Qed.
+
+Lemma upd_V2_same s m : upd_V2 s m (rnth (V2 s) m) = s.
+Proof. unfold upd_V2, rnth. rewrite set_nth_same. destruct s; reflexivity. Qed.
+
+Lemma energy_V2 s m x :
+  energy ln g d (upd_V2 s m x) - energy ln g d (upd_V2 s m [])
+  = prec s * (sse g d (upd_V2 s m x) - sse g d (upd_V2 s m []))
+    + (e_Vk ln g (set_nth m x (V2 s)) (phi2 s) (eta2 s) - e_Vk ln g (set_nth m [] (V2 s)) (phi2 s) (eta2 s)).
+Proof.
+  unfold energy, e_lik. change (prec (upd_V2 s m x)) with (prec s). change (prec (upd_V2 s m [])) with (prec s).
+  change (e_W0 ln g (upd_V2 s m x)) with (e_W0 ln g s). change (e_W0 ln g (upd_V2 s m [])) with (e_W0 ln g s).
+  change (e_V0 ln g (upd_V2 s m x)) with (e_V0 ln g s). change (e_V0 ln g (upd_V2 s m [])) with (e_V0 ln g s).
+  change (e_W ln g (upd_V2 s m x)) with (e_W ln g s). change (e_W ln g (upd_V2 s m [])) with (e_W ln g s).
+  change (e_hyper ln g (upd_V2 s m x)) with (e_hyper ln g s). change (e_hyper ln g (upd_V2 s m [])) with (e_hyper ln g s).
+  cbn [upd_V2 set_V2 V2 V1 phi2 phi1 eta2 eta1]. ring.
+Qed.
+
+Lemma energy_diff_V2 s m x :
+  ValidData d -> NoSelfCombo d -> cache_ok g d s -> (m < c_ndd g)%nat -> (m < length (V2 s))%nat ->
+  let rows := mk_rows g d s (xrow_V2a g d s) (rnth (V2 s) m) (positions (Z.of_nat m) (d_dd1 d))
+              ++ mk_rows g d s (xrow_V2b g d s) (rnth (V2 s) m) (positions (Z.of_nat m) (d_dd2 d)) in
+  energy ln g d (upd_V2 s m x) - energy ln g d (upd_V2 s m [])
+  = quad D (gramQ D (prec s) rows (lam_V2 g s m)) x - qofZ 2 * vdot D (xtr D (prec s) rows) x.
+Proof.
+  intros Hv Hns Hcache Hm Hlt rows. subst rows. rewrite energy_V2, prior_Vk by assumption. unfold sse.
+  pose proof Hv as (_ & Hl1 & Hl2 & _).
+  rewrite (sumn_ext D _ (fun k => vnth (lam_V2 g s m) k * qsq (vnth x k)))
+    by (intros k Hk; unfold lam_V2; now rewrite vnth_tab by exact Hk).
+  rewrite (vec_core (fun z => spec_mean g d (upd_V2 s m z)) s (xrow_V2a g d s) (xrow_V2b g d s) (in1 m) (in2 m) (rnth (V2 s) m) (lam_V2 g s m) (prec s)).
+  - rewrite (positions_eq (Z.of_nat m) (d_dd1 d) n Hl1), (positions_eq (Z.of_nat m) (d_dd2 d) n Hl2). reflexivity.
+  - intros i Hi. now apply in12_disjoint.
+  - intros z i Hi. now apply mean_V2.
+  - intros i Hi. rewrite upd_V2_same. now apply cache_nth.
+Qed.
+
+Theorem gauss_block_V2 s m Q b k :
+  ValidData d -> NoSelfCombo d -> cache_ok g d s -> (m < c_ndd g)%nat -> (m < length (V2 s))%nat ->
+  block_V2 g d s m = (DMvn Q b, k) ->
+  forall x, energy ln g d (upd_V2 s m x) - energy ln g d (upd_V2 s m []) = quad D Q x - qofZ 2 * vdot D b x.
+Proof.
+  intros Hv Hns Hcache Hm Hlt Hb x. apply block_V_data in Hb as [-> ->]. now apply energy_diff_V2.
+Qed.
+
+Theorem prior_block_V2 s m vars k :
+  ValidData d -> NoSelfCombo d -> cache_ok g d s -> (m < c_ndd g)%nat -> (m < length (V2 s))%nat ->
+  block_V2 g d s m = (DNormalVec vars, k) ->
+  vars = map Qcinv (lam_V2 g s m) /\
+  forall x, energy ln g d (upd_V2 s m x) - energy ln g d (upd_V2 s m []) = sumn D (fun j => vnth (lam_V2 g s m) j * qsq (vnth x j)).
+Proof.
+  intros Hv Hns Hcache Hm Hlt Hb. apply block_V_prior in Hb as (-> & E1 & E2). split; [reflexivity|]. intros x.
+  rewrite energy_diff_V2, E1, E2 by assumption. unfold mk_rows. cbn [map app].
+  rewrite <- gauss_rows. cbn [map]. rewrite qsum_nil. ring.
+Qed.
+
+(* ================================================================ V1 *)
+Definition upd_V1 (s : st) (m : nat) (x : list Qc) : st := set_V1 s (set_nth m x (V1 s)).
+
+Lemma xrow_V1_nth s i k :
+  ValidData d -> (k < D)%nat -> vnth (xrow_V1 g d s i) k = vnth (rnth (W s) (Z.to_nat (znth (d_cl d) i))) k.
+Proof.
+  intros (_ & _ & _ & Hc & _) Hk. unfold xrow_V1. rewrite vnth_tab by exact Hk. rewrite py_r_nat by apply Hc. reflexivity.
+Qed.
+
+Lemma mean_V1 s m x i :
+  ValidData d -> (m < length (V1 s))%nat ->
+  spec_mean g d (upd_V1 s m x) i
+  = spec_mean g d (upd_V1 s m []) i + (if in1 m i then vdot D (xrow_V1 g d s i) x else 0)
+    + (if in2 m i then vdot D (xrow_V1 g d s i) x else 0).
+Proof.
+  intros Hv Hlt. unfold spec_mean, upd_V1. cbn [W0 W V0 V1 V2 alpha set_V1].
+  rewrite !emb_r_set by exact Hlt. fold (in1 m i) (in2 m i).
+  assert (HX : vdot D (xrow_V1 g d s i) x = sumn D (fun k => vnth (rnth (W s) (Z.to_nat (znth (d_cl d) i))) k * vnth x k)).
+  { unfold vdot. apply sumn_ext; intros k Hk. now rewrite xrow_V1_nth by assumption. }
+  rewrite HX. clear HX.
+  assert (HS : forall a b : list Qc,
+     sumn D (fun k => vnth (rnth (W s) (Z.to_nat (znth (d_cl d) i))) k * (vnth a k + vnth b k))
+     = sumn D (fun k => vnth (rnth (W s) (Z.to_nat (znth (d_cl d) i))) k * vnth a k)
+       + sumn D (fun k => vnth (rnth (W s) (Z.to_nat (znth (d_cl d) i))) k * vnth b k)).
+  { intros a b. rewrite <- sumn_add. apply sumn_ext; intros; ring. }
+  rewrite !HS.
+  assert (HZ : sumn D (fun k => vnth (rnth (W s) (Z.to_nat (znth (d_cl d) i))) k * vnth [] k) = 0)
+    by (apply sumn_zero'; intros; rewrite vnth_nil; ring).
+  destruct (in1 m i), (in2 m i); rewrite ?HZ; ring.
+Qed.
+
+Lemma upd_V1_same s m : upd_V1 s m (rnth (V1 s) m) = s.
+Proof. unfold upd_V1, rnth. rewrite set_nth_same. destruct s; reflexivity. Qed.
+
+Lemma energy_V1 s m x :
+  energy ln g d (upd_V1 s m x) - energy ln g d (upd_V1 s m [])
+  = prec s * (sse g d (upd_V1 s m x) - sse g d (upd_V1 s m []))
+    + (e_Vk ln g (set_nth m x (V1 s)) (phi1 s) (eta1 s) - e_Vk ln g (set_nth m [] (V1 s)) (phi1 s) (eta1 s)).
+Proof.
+  unfold energy, e_lik. change (prec (upd_V1 s m x)) with (prec s). change (prec (upd_V1 s m [])) with (prec s).
+  change (e_W0 ln g (upd_V1 s m x)) with (e_W0 ln g s). change (e_W0 ln g (upd_V1 s m [])) with (e_W0 ln g s).
+  change (e_V0 ln g (upd_V1 s m x)) with (e_V0 ln g s). change (e_V0 ln g (upd_V1 s m [])) with (e_V0 ln g s).
+  change (e_W ln g (upd_V1 s m x)) with (e_W ln g s). change (e_W ln g (upd_V1 s m [])) with (e_W ln g s).
+  change (e_hyper ln g (upd_V1 s m x)) with (e_hyper ln g s). change (e_hyper ln g (upd_V1 s m [])) with (e_hyper ln g s).
+  cbn [upd_V1 set_V1 V2 V1 phi2 phi1 eta2 eta1]. ring.
+Qed.
+
+Lemma energy_diff_V1 s m x :
+  ValidData d -> NoSelfCombo d -> cache_ok g d s -> (m < c_ndd g)%nat -> (m < length (V1 s))%nat ->
+  let rows := mk_rows g d s (xrow_V1 g d s) (rnth (V1 s) m) (positions (Z.of_nat m) (d_dd1 d))
+              ++ mk_rows g d s (xrow_V1 g d s) (rnth (V1 s) m) (positions (Z.of_nat m) (d_dd2 d)) in
+  energy ln g d (upd_V1 s m x) - energy ln g d (upd_V1 s m [])
+  = quad D (gramQ D (prec s) rows (lam_V1 g s m)) x - qofZ 2 * vdot D (xtr D (prec s) rows) x.
+Proof.
+  intros Hv Hns Hcache Hm Hlt rows. subst rows. rewrite energy_V1, prior_Vk by assumption. unfold sse.
+  pose proof Hv as (_ & Hl1 & Hl2 & _).
+  rewrite (sumn_ext D _ (fun k => vnth (lam_V1 g s m) k * qsq (vnth x k)))
+    by (intros k Hk; unfold lam_V1; now rewrite vnth_tab by exact Hk).
+  rewrite (vec_core (fun z => spec_mean g d (upd_V1 s m z)) s (xrow_V1 g d s) (xrow_V1 g d s) (in1 m) (in2 m) (rnth (V1 s) m) (lam_V1 g s m) (prec s)).
+  - rewrite (positions_eq (Z.of_nat m) (d_dd1 d) n Hl1), (positions_eq (Z.of_nat m) (d_dd2 d) n Hl2). reflexivity.
+  - intros i Hi. now apply in12_disjoint.
+  - intros z i Hi. now apply mean_V1.
+  - intros i Hi. rewrite upd_V1_same. now apply cache_nth.
+Qed.
+
+Theorem gauss_block_V1 s m Q b k :
+  ValidData d -> NoSelfCombo d -> cache_ok g d s -> (m < c_ndd g)%nat -> (m < length (V1 s))%nat ->
+  block_V1 g d s m = (DMvn Q b, k) ->
+  forall x, energy ln g d (upd_V1 s m x) - energy ln g d (upd_V1 s m []) = quad D Q x - qofZ 2 * vdot D b x.
+Proof.
+  intros Hv Hns Hcache Hm Hlt Hb x. apply block_V_data in Hb as [-> ->]. now apply energy_diff_V1.
+Qed.
+
+Theorem prior_block_V1 s m vars k :
+  ValidData d -> NoSelfCombo d -> cache_ok g d s -> (m < c_ndd g)%nat -> (m < length (V1 s))%nat ->
+  block_V1 g d s m = (DNormalVec vars, k) ->
+  vars = map Qcinv (lam_V1 g s m) /\
+  forall x, energy ln g d (upd_V1 s m x) - energy ln g d (upd_V1 s m []) = sumn D (fun j => vnth (lam_V1 g s m) j * qsq (vnth x j)).
+Proof.
+  intros Hv Hns Hcache Hm Hlt Hb. apply block_V_prior in Hb as (-> & E1 & E2). split; [reflexivity|]. intros x.
+  rewrite energy_diff_V1, E1, E2 by assumption. unfold mk_rows. cbn [map app].
+  rewrite <- gauss_rows. cbn [map]. rewrite qsum_nil. ring.
+Qed.
 End Blocks.
